@@ -87,6 +87,13 @@ struct Inst {
 	bool actualPlanKnown = false;
 
 	bool active() const { return cur >= 0; }
+	// can the harness observe deliveries to this state?  States with callbacks: always; states that define
+	// none: only through the verbose log while a logger is attached
+	bool sees(unsigned sid) const {
+		if (sid == ROOT) return cfg::HEAD;
+		if (sid + cfg::BARE < N) return true;
+		return HAS_VERBOSE && loggerAttached;
+	}
 	bool anySuccMay() const { for (unsigned i = 0; i < N; ++i) if (succMay[i]) return true; return false; }
 	bool anyFailMay() const { for (unsigned i = 0; i < N; ++i) if (failMay[i]) return true; return false; }
 	void clearStatuses(bool may) { for (unsigned i = 0; i < 8; ++i) { succMust[i] = failMust[i] = false; if (may) succMay[i] = failMay[i] = false; } }
@@ -131,6 +138,14 @@ struct World {
 
 	// ------------------------------------------------------------------
 	void V(const char* prop, const std::string& key, const std::string& msg) {
+		if (cfg::BARE && strcmp(prop, "C16") != 0) {
+			// configurations with states that define no callback see those states only through the verbose
+			// log: an inconsistency there says the record stream and the machine disagree (C16)
+			const std::string k2 = std::string("verbose-record-stream-inconsistent|") + prop + "|" + key;
+			for (auto& v : viols) if (v.prop == "C16" && v.key == k2) return;
+			viols.push_back({"C16", k2, msg});
+			return;
+		}
 		for (auto& v : viols) if (v.prop == prop && v.key == key) return;
 		viols.push_back({prop, key, msg});
 	}
@@ -206,7 +221,7 @@ struct World {
 		in.logExpectMethod = false;
 		// records for states that define no callbacks (bare states, a headless root) are legitimate in
 		// verbose builds, and for the react family in every logging build
-		if (!visibleState(in.logSid)) { stats.add("c16_records_for_invisible_states"); return; }
+		if (!in.sees(in.logSid) || !visibleState(in.logSid)) { stats.add("c16_records_for_invisible_states"); return; }
 		V("C16", fmt("method-record-without-delivery|%s", mname(in.logM)), fmt("method record (%u,%s) was not followed by that delivery (next: %s); %s", in.logSid, mname(in.logM), because, tail().c_str()));
 	}
 
@@ -223,6 +238,19 @@ struct World {
 		flushMethodRecord(in, "another method record");
 		logPush(in, LOG_METHOD, sid, static_cast<uint8_t>(m));
 		if (!inApi) V("C16", "method-record-outside-api-call", fmt("method record (%u,%s) outside any API call", sid, mname(m)));
+		if (HAS_VERBOSE && cfg::BARE && sid != ROOT && sid < N && !visibleState(sid)) {
+			// verbose logging records deliveries to states that define no callback: the record is the only
+			// observation of that delivery, so it is fed to the monitors as the delivery itself
+			closeDelivery(in);
+			Ev e; e.kind = EV_SUB; e.inst = in.slot; e.code = static_cast<uint8_t>(m); e.sid = sid; e.inj = 9;
+			push(e);
+			stats.add2("deliveries_to_bare_states_seen_through_verbose_log", mname(m));
+			in.actualPlanKnown = false;
+			if (readPlanHook && in.obj) readPlanHook(in);   // this observation point has no control object: read the plan from the machine
+			onDelivery(in, m, sid);
+			if (m == Method::EXIT) in.clearStatus(sid);
+			return;
+		}
 		in.logExpectMethod = true; in.logM = m; in.logSid = sid;
 	}
 
@@ -298,17 +326,17 @@ struct World {
 	// ------------------------------------------------------------------
 	// expected phase sequence of update()/react()  (C05)
 
-	static std::vector<std::pair<Method, uint8_t>> phasePlan(uint8_t op, int cur0) {
+	static std::vector<std::pair<Method, uint8_t>> phasePlan(const Inst& in, uint8_t op, int cur0) {
 		std::vector<std::pair<Method, uint8_t>> e;
 		const uint8_t S = static_cast<uint8_t>(cur0);
 		const Method pre = op == OP_UPDATE ? Method::PRE_UPDATE : Method::PRE_REACT;
 		const Method mid = op == OP_UPDATE ? Method::UPDATE : Method::REACT;
 		const Method post = op == OP_UPDATE ? Method::POST_UPDATE : Method::POST_REACT;
 		if (cfg::HEAD) e.push_back({pre, ROOT});
-		if (visibleState(S)) e.push_back({pre, S});
+		if (in.sees(S)) e.push_back({pre, S});
 		if (cfg::HEAD) e.push_back({mid, ROOT});
-		if (visibleState(S)) e.push_back({mid, S});
-		if (visibleState(S)) e.push_back({post, S});
+		if (in.sees(S)) e.push_back({mid, S});
+		if (in.sees(S)) e.push_back({post, S});
 		if (cfg::HEAD) e.push_back({post, ROOT});
 		return e;
 	}
@@ -317,7 +345,7 @@ struct World {
 		Step& s = in.st;
 		if (s.op != OP_UPDATE && s.op != OP_REACT) return;
 		if (s.phaseError) return;
-		const auto plan = phasePlan(s.op, s.cur0);
+		const auto plan = phasePlan(in, s.op, s.cur0);
 		if (s.phaseIdx < plan.size()) {
 			s.phaseError = true;
 			V("C05", fmt("phase-missing|%s|expected=%s.%s|before=%s", opName(s.op), plan[s.phaseIdx].second == ROOT ? "R" : "S", mname(plan[s.phaseIdx].first), because),
@@ -329,7 +357,7 @@ struct World {
 	void maybeOpenPlanWindow(Inst& in) {
 		Step& s = in.st;
 		if ((s.op == OP_UPDATE || s.op == OP_REACT) && s.planPhase == 0 && !s.planWindowUsed) {
-			const auto plan = phasePlan(s.op, s.cur0);
+			const auto plan = phasePlan(in, s.op, s.cur0);
 			if (s.phaseIdx >= plan.size() && !s.phaseError) {
 				s.planWindowUsed = true;
 				s.planPhase = 1;
@@ -385,7 +413,7 @@ struct World {
 			V("C05", fmt("phase-callback-outside-cycle|%s|op=%s", mname(m), opName(s.op)), fmt("%s of %u delivered during %s; %s", mname(m), sid, opName(s.op), tail().c_str()));
 			return;
 		}
-		const auto plan = phasePlan(s.op, s.cur0);
+		const auto plan = phasePlan(in, s.op, s.cur0);
 		if (s.phaseError) return;
 		if (sid != ROOT && static_cast<int>(sid) != s.cur0) {
 			s.phaseError = true;
@@ -480,7 +508,7 @@ struct World {
 		s.roundOpen = false;
 		Round& r = s.rounds.back();
 		if (isProcessingOp(s.op)) {
-			if (!r.cancelled && !r.entrySeen && r.pending.valid && visibleState(r.pending.dest))
+			if (!r.cancelled && !r.entrySeen && r.pending.valid && in.sees(r.pending.dest))
 				V("C03", "entry-guard-not-consulted", fmt("round %zu: exit guard passed but the entry guard of destination %u was never consulted; %s", s.rounds.size(), r.pending.dest, tail().c_str()));
 		}
 		if (r.cancelled) { flags |= F_VETO; if (s.survivor.valid) flags |= F_VETO_AFTER_SURVIVOR; }
@@ -557,7 +585,7 @@ struct World {
 		if (s.applyBegun) V("C03", "guard-after-enter-exit", fmt("entryGuard of %u delivered after enter/exit/reenter of the same call; %s", sid, tail().c_str()));
 		if (sid == ROOT) return; // root guards are not part of request processing; nothing is stated about them
 		if (!s.roundOpen || !s.rounds.back().exitSeen || s.rounds.back().entrySeen) {
-			if (visibleState(static_cast<unsigned>(in.cur)))
+			if (in.sees(static_cast<unsigned>(in.cur)))
 				V("C03", "entry-guard-without-exit-guard", fmt("entryGuard of %u consulted without the active state's exitGuard first; %s", sid, tail().c_str()));
 			// keep the bookkeeping going: treat as a round of its own
 			finalizeRound(in);
@@ -623,7 +651,7 @@ struct World {
 			if (sid == ROOT) {
 				++s.rootExits;
 				if (!in.rootIn) V("C01", "root-exit-unpaired", fmt("root exit() without a matching enter(); %s", tail().c_str()));
-				if (in.cur >= 0 && visibleState(static_cast<unsigned>(in.cur))) V("C01", "root-exit-before-state-exit", fmt("root exit() while state %d is still entered; %s", in.cur, tail().c_str()));
+				if (in.cur >= 0 && in.sees(static_cast<unsigned>(in.cur))) V("C01", "root-exit-before-state-exit", fmt("root exit() while state %d is still entered; %s", in.cur, tail().c_str()));
 				in.rootIn = false;
 				if (in.cur >= 0) in.cur = -1;
 			} else {
@@ -852,7 +880,7 @@ inline void World::apiEnd(Inst& in) {
 	// C05 query structure
 	if (s.op == OP_QUERY) {
 		if (cfg::HEAD && s.queryRoot != 1) V("C05", "query-not-delivered-to-root-once", fmt("query(): root received %u query callbacks; %s", s.queryRoot, tail().c_str()));
-		if (s.cur0 >= 0 && visibleState(static_cast<unsigned>(s.cur0)) && s.queryState != 1) V("C05", "query-not-delivered-to-active-state-once", fmt("query(): active state %d received %u query callbacks; %s", s.cur0, s.queryState, tail().c_str()));
+		if (s.cur0 >= 0 && in.sees(static_cast<unsigned>(s.cur0)) && s.queryState != 1) V("C05", "query-not-delivered-to-active-state-once", fmt("query(): active state %d received %u query callbacks; %s", s.cur0, s.queryState, tail().c_str()));
 	}
 
 	const auto applied = [&]() {
@@ -868,7 +896,7 @@ inline void World::apiEnd(Inst& in) {
 		if (s.rounds.size() >= cfg::L) flags |= F_LIMIT;
 		if (s.survivor.valid) flags |= F_TRANSITION;
 		if (s.op == OP_UPDATE || s.op == OP_REACT) flags |= F_CYCLE;
-		const bool cur0Visible = s.cur0 >= 0 && visibleState(static_cast<unsigned>(s.cur0));
+		const bool cur0Visible = s.cur0 >= 0 && in.sees(static_cast<unsigned>(s.cur0));
 		if (!s.survivor.valid) {
 			if (s.exits || s.enters || s.reenters) {
 				const std::string msg = fmt("no request survived its guards (rounds=%zu) yet %s; %s", s.rounds.size(), applied().c_str(), tail().c_str());
@@ -879,7 +907,7 @@ inline void World::apiEnd(Inst& in) {
 			}
 		} else {
 			const int d = s.survivor.dest;
-			const bool dVisible = visibleState(static_cast<unsigned>(d));
+			const bool dVisible = in.sees(static_cast<unsigned>(d));
 			bool ok;
 			if (d != s.cur0) ok = (!cur0Visible || (s.exits == 1 && s.exitSid == s.cur0)) && (!dVisible || (s.enters == 1 && s.enterSid == d)) && s.reenters == 0 && s.exits <= 1 && s.enters <= 1;
 			else ok = (!dVisible || (s.reenters == 1 && s.reenterSid == d)) && s.exits == 0 && s.enters == 0;
@@ -899,7 +927,7 @@ inline void World::apiEnd(Inst& in) {
 	if (isActivationOp(s.op)) {
 		stats.add2("activation_rounds_histogram", std::to_string(s.rounds.size()));
 		const int d = s.survivor.valid ? s.survivor.dest : 0;
-		const bool dVisible = visibleState(static_cast<unsigned>(d));
+		const bool dVisible = in.sees(static_cast<unsigned>(d));
 		const bool ok = (!dVisible || (s.enters == 1 && s.enterSid == d)) && s.enters <= 1 && s.exits == 0 && s.reenters == 0 && (!cfg::HEAD || s.rootEnters == 1);
 		if (!ok) {
 			const std::string msg = fmt("activation: expected [root.enter] enter(%d) (last surviving redirect %s) but %s rootEnters=%u; rounds=%zu; %s", d, s.survivor.str().c_str(), applied().c_str(), s.rootEnters, s.rounds.size(), tail().c_str());
@@ -914,7 +942,7 @@ inline void World::apiEnd(Inst& in) {
 	if (s.op == OP_EXIT || s.op == OP_DTOR) {
 		const bool expectCallbacks = s.op == OP_EXIT || !cfg::MANUAL;
 		if (expectCallbacks && s.cur0 >= 0) {
-			const bool cur0Visible = visibleState(static_cast<unsigned>(s.cur0));
+			const bool cur0Visible = in.sees(static_cast<unsigned>(s.cur0));
 			const bool ok = (!cur0Visible || (s.exits == 1 && s.exitSid == s.cur0)) && s.enters == 0 && s.reenters == 0 && (!cfg::HEAD || s.rootExits == 1);
 			if (!ok) V("C01", "deactivation-did-not-exit-state-then-root", fmt("%s: expected exit(%d) [root.exit] but %s rootExits=%u; %s", opName(s.op), s.cur0, applied().c_str(), s.rootExits, tail().c_str()));
 		}
